@@ -197,6 +197,9 @@ theorem sliceGrpcShootInner_eq : Gen.GrpcStatus.sliceGrpcShootInner = [
   "  v2.SetProtoCode(v1)",
   "  v4.Aggr.Report(v2)",
   "}()",
+  "if v3.IsInvalid() {",
+  "  return",
+  "}",
   "v5, v6 := v4.Services[v3.Call]",
   "if !v6 {",
   "  return",
